@@ -1,4 +1,4 @@
-\* exhaustive, thorough: every declaration with <= 2 fields over 8 base types x 6 wrapper stacks x renames; every literal with <= 7 nodes, nesting <= 4
+\* exhaustive, thorough: every declaration with <= 2 fields over 8 base types x 6 wrapper stacks x renames; every literal with <= 6 nodes, nesting <= 4
 CONSTANTS
   Dev = {}
   Modes = {"decl", "lit"}
@@ -9,7 +9,7 @@ CONSTANTS
   MaxFields = 2
   MaxDepth = 4
   MaxItems = 3
-  MaxNodes = 7
+  MaxNodes = 6
   Leaves = {1, 2}
   GenSizes <- SizesNone
   NVals = 0
